@@ -1,5 +1,6 @@
 #![allow(dead_code, unused_variables, unused_imports, clippy::all)]
 mod bcverify;
+mod c08;
 mod c01;
 mod typemember;
 mod c02;
@@ -38,6 +39,7 @@ fn run_check(id: &str, tier: Tier) -> Result<infra::Report, String> {
         "C14" => sim::checks::c14(tier),
         "C07" => c07::run(tier),
         "C02" => c02::run(tier),
+        "C08" => c08::run(tier),
         "C01" => c01::run(tier),
         "C11" => c11::run(tier),
         "C12" => c12::run(tier),
@@ -63,6 +65,7 @@ fn run_replay(id: &str, path: &std::path::Path) -> i32 {
         _ => match id {
             "C07" => c07::replay(replay),
             "C02" => c02::replay(replay),
+            "C08" => c08::replay(replay),
             "C01" => c01::replay(replay),
             "C11" => c11::replay(replay),
             "C12" => c12::replay(replay),
